@@ -161,6 +161,10 @@ def run_property(prop, tier, seed, repo=None, quiet=False, write=True):
         out_lines.append("KNOWN-FINDING: property=%s %s [%s %s:%s] %s" % (
             f.prop, k.get("id", ""), f.rule, f.function, f.site, f.what))
     replay_dir = os.path.join(ROOT, "out", "replay")
+    if write and os.path.isdir(replay_dir):
+        for old in os.listdir(replay_dir):
+            if old.startswith(prop + "-"):
+                os.unlink(os.path.join(replay_dir, old))
     if unlisted and write:
         os.makedirs(replay_dir, exist_ok=True)
     for n, (f, _) in enumerate(unlisted):
